@@ -210,6 +210,20 @@ func ruleHNSWOrder(r *Run, p string) {
 		name := w.Name(fn)
 		r.Analysed(name)
 		c := NewCanon(w)
+		// neighbour lists are built without regard to the soft-delete state: tombstoned vertices stay linked until Flush,
+		// they are the bridges the layer search walks through (C12.FRONTIER explores them on purpose)
+		if hk, err := kindByName(w, "hnsw"); err == nil {
+			usesDel := ""
+			for _, g := range sameRecvCallees(w, fn, 2) {
+				cg := NewCanon(w)
+				allInstrs(g, func(in ssa.Instruction) {
+					if call, ok := in.(*ssa.Call); ok && strings.HasPrefix(calleeName(call.Common()), roaringBitmap) && len(call.Call.Args) > 0 && cg.S(call.Call.Args[0]) == "P0."+hk.DelField {
+						usesDel = w.InstrPos(in)
+					}
+				})
+			}
+			r.Check(usesDel == "", rule, "hnsw:"+role+":del-independent", w.Pos(fn.Pos())+" "+name, "neighbour "+role+" does not consult the soft-delete bitmap", "neighbour "+role+" consults the soft-delete bitmap at "+usesDel+": edges to tombstoned vertices are dropped before Flush and the live vertices behind them become unreachable")
+		}
 		var sortCall ssa.Instruction
 		for _, call := range callsIn(fn, func(cc *ssa.CallCommon) bool { return calleeName(cc) == "sort.Slice" }) {
 			sortCall = call
